@@ -53,6 +53,7 @@ func and(ps ...func(*ssa.Call) bool) func(*ssa.Call) bool {
 }
 
 func runC21(c *core.Ctx) {
+	checkRegisteredOnlyAfterQuorum(c)
 	checkQuitUnregisters(c, "C21.quit-unregisters")
 	fn := c.Fn(pkCCM, "ImportExTransfer")
 	cib := eng.Obj(c, pkCCMCom, "CheckIfChainBlacked")
@@ -234,6 +235,9 @@ func inLoop(in ssa.Instruction) bool {
 }
 
 func runC22(c *core.Ctx) {
+	// a rejected import leaves nothing behind only because the per-transaction cache is emptied before the next
+	// transaction of the block runs (C15's rule, a necessary condition of "failed imports commit nothing")
+	checkResetBeforeTx(c, "C22.failed-import-leaves-nothing")
 	fn := c.Fn(pkCCM, "MakeTransaction")
 	putReq := eng.Obj(c, pkCCM, "PutRequest")
 	pmv := eng.Obj(c, pkNative, "NativeService.PutMerkleVal")
